@@ -14,6 +14,7 @@ void a_crc8m_init(a_u8 table[0x100], a_u8 poly)
             if (sig) { value ^= poly; }
         }
         table[c] = (a_u8)value;
+        A_VERIF_HOOK(crc8m_init_entry)
     }
 }
 void a_crc8l_init(a_u8 table[0x100], a_u8 poly)
@@ -31,6 +32,7 @@ void a_crc8l_init(a_u8 table[0x100], a_u8 poly)
             if (sig) { value ^= poly; }
         }
         table[c] = (a_u8)value;
+        A_VERIF_HOOK(crc8l_init_entry)
     }
 }
 a_u8 a_crc8(a_u8 const table[0x100], void const *pdata, a_size nbyte, a_u8 value)
@@ -58,6 +60,7 @@ void a_crc16m_init(a_u16 table[0x100], a_u16 poly)
             if (sig) { value ^= poly; }
         }
         table[c] = (a_u16)value;
+        A_VERIF_HOOK(crc16m_init_entry)
     }
 }
 void a_crc16l_init(a_u16 table[0x100], a_u16 poly)
@@ -75,6 +78,7 @@ void a_crc16l_init(a_u16 table[0x100], a_u16 poly)
             if (sig) { value ^= poly; }
         }
         table[c] = (a_u16)value;
+        A_VERIF_HOOK(crc16l_init_entry)
     }
 }
 a_u16 a_crc16m(a_u16 const table[0x100], void const *pdata, a_size nbyte, a_u16 value)
@@ -112,6 +116,7 @@ void a_crc32m_init(a_u32 table[0x100], a_u32 poly)
             if (sig) { value ^= poly; }
         }
         table[c] = value;
+        A_VERIF_HOOK(crc32m_init_entry)
     }
 }
 void a_crc32l_init(a_u32 table[0x100], a_u32 poly)
@@ -129,6 +134,7 @@ void a_crc32l_init(a_u32 table[0x100], a_u32 poly)
             if (sig) { value ^= poly; }
         }
         table[c] = value;
+        A_VERIF_HOOK(crc32l_init_entry)
     }
 }
 a_u32 a_crc32m(a_u32 const table[0x100], void const *pdata, a_size nbyte, a_u32 value)
@@ -166,6 +172,7 @@ void a_crc64m_init(a_u64 table[0x100], a_u64 poly)
             if (sig) { value ^= poly; }
         }
         table[c] = value;
+        A_VERIF_HOOK(crc64m_init_entry)
     }
 }
 void a_crc64l_init(a_u64 table[0x100], a_u64 poly)
@@ -183,6 +190,7 @@ void a_crc64l_init(a_u64 table[0x100], a_u64 poly)
             if (sig) { value ^= poly; }
         }
         table[c] = value;
+        A_VERIF_HOOK(crc64l_init_entry)
     }
 }
 a_u64 a_crc64m(a_u64 const table[0x100], void const *pdata, a_size nbyte, a_u64 value)
